@@ -52,7 +52,7 @@ def big_case(rng, wrap, extra_blocks):
 
 
 def gen(rng, tier, mult=1):
-    n = (350 if tier == "quick" else 5000) * mult
+    n = (1500 if tier == "quick" else 20000) * mult
     for i in range(n):
         style = ["clean", "faulty", "faulty", "edge", "random", "abort", "silent"][i % 7]
         yield T.gen_transfer_case(rng, netascii=False, script_style=style, simple_cfg=(i % 2 == 0),
